@@ -1,0 +1,55 @@
+//go:build verif
+
+package roles
+
+// This file is only built with the "verif" tag. It lets an external
+// verification harness read the stored passcode record of a role; it adds no
+// behaviour to the package.
+
+// VerifPassCode is the stored passcode state of a role in a neutral form.
+type VerifPassCode struct {
+	Has        bool // a passcode record is stored
+	Code       string
+	ValidNano  int64
+	ExpireNano int64
+	HasValid   bool
+	HasExpire  bool
+	Consumed   bool
+	Tried      int
+	Disabled   bool   // the role's disabled flag
+	HasID      bool   // an identity has been set up
+	IDTag      string // ID of the first public key of that identity
+}
+
+// VerifPassCodeState reads the stored record of the named role.
+func (b *Roles) VerifPassCodeState(name string) (*VerifPassCode, error) {
+	r, err := b.get(name)
+	if err != nil {
+		return nil, err
+	}
+	ret := &VerifPassCode{HasID: r.Identity != nil}
+	if r.Identity != nil && len(r.Identity.PublicKeys) > 0 {
+		ret.IDTag = r.Identity.PublicKeys[0].ID
+	}
+	if r.Role != nil {
+		ret.Disabled = r.Role.Disabled
+	}
+	if c := r.PassCode; c != nil {
+		ret.Has = true
+		ret.Code = c.Code
+		ret.Consumed = c.Consumed
+		ret.Tried = c.Tried
+		if c.Valid != nil {
+			ret.HasValid = true
+			ret.ValidNano = c.Valid.Time().UnixNano()
+		}
+		if c.Expire != nil {
+			ret.HasExpire = true
+			ret.ExpireNano = c.Expire.Time().UnixNano()
+		}
+	}
+	return ret, nil
+}
+
+// VerifPassCodeMaxTries is the attempt limit constant.
+const VerifPassCodeMaxTries = passCodeMaxTries
